@@ -28,11 +28,20 @@ void *operator new(std::size_t n)
     }
     return p;
 }
+// pages mapped for placed objects (a fixed table: operator delete must not allocate)
+static uintptr_t gPlacedPage[4096];
+static size_t gPlacedLen[4096];
+static size_t gPlacedCount = 0;
+
 void operator delete(void *p) noexcept
 {
     auto a = reinterpret_cast<uintptr_t>(p);
-    if (a >= ARENA_LOW && a < ARENA_HIGH) {
-        return; // placed objects live in pages that are simply left mapped
+    if (a >= ARENA_LOW && a < ARENA_HIGH) { // only then can it be a placed object (the ordinary heap of a PIE binary lies in this range too)
+        for (size_t i = 0; i < gPlacedCount; ++i) {
+            if (a >= gPlacedPage[i] && a < gPlacedPage[i] + gPlacedLen[i]) {
+                return; // placed objects live in pages that are simply left mapped
+            }
+        }
     }
     std::free(p);
 }
@@ -53,6 +62,13 @@ static VariablePtr variableAt(uintptr_t address, const std::string &name, bool &
             return Variable::create(name);
         }
         mapped[page] = len;
+        if (gPlacedCount < 4096) {
+            gPlacedPage[gPlacedCount] = page;
+            gPlacedLen[gPlacedCount] = len;
+            ++gPlacedCount;
+        } else {
+            ok = false;
+        }
     }
     gNextAddress = reinterpret_cast<void *>(address);
     gArmedSize = sizeof(Variable);
